@@ -18,6 +18,10 @@ NONPOINTWISE = {"sort", "concat", "sum", "nansum", "amin", "amax", "reshape", "f
                 "union1d", "argsort", "m:sum", "m:mean", "mean", "median", "trapezoid", "m:flatten", "m:reshape", "m:ravel", "ravel"}
 
 
+# memo keyed by the group label; its entries are functions of (pos, neg, groups, flags) which no query re-binds
+TABLED_CACHES = {(GROUP, "_grouped_scores")}
+
+
 def param(name, *tags):
     return Sym(name, ("param", "array", "notnone") + tags)
 
@@ -29,6 +33,8 @@ def mutation_findings(o):
             out.append(("inplace", "%s of %s (storage of %s)" % (e["how"], e["target"], show(e["root"], 40)), e))
         elif e["kind"] == "attr_store" and not e["in_init"]:
             out.append(("attr-store", "self.%s re-bound" % e["attr"], e))
+        elif e["kind"] == "dict_store" and not e["in_init"] and (e["obj"].cls.qualname, e["attr"]) not in TABLED_CACHES:
+            out.append(("state-store", "entry stored into dict attribute self.%s (hidden per-object state)" % e["attr"], e))
         elif e["kind"] == "foreign_attr_store":
             out.append(("attr-store", "attribute %s of a foreign object re-bound" % e["attr"], e))
     return out
@@ -209,6 +215,34 @@ def shapes_and_aliases(ctx, chk):
                           "element [..., i, j] depends only on the same element of the threshold (axis reversal permutes elements for rank >= 2)", ctx.where(SCORES + ".cm"))
         else:
             chk.unknown("R10.2", "%s: matrix layout not understood (shape %s, operator %s)" % (inst, show(sh, 60) if sh is not None else "?", bad))
+    # pointwise_cm: shape scores.shape + threshold.shape + (2, 2) through the flatten / restore pair
+    pw = ctx.fn("score_analysis.scores.pointwise_cm")
+    L_, S_, T_ = param("labels"), param("scores"), param("threshold")
+    outs = ctx.explore(lambda: ctx.ev.call(pw, [L_, S_, T_], {}), chk)
+    rets = returns(outs)
+    if len(rets) != 1:
+        chk.unknown("R10.2", "pointwise_cm: %d return paths" % len(rets))
+    else:
+        v = rets[0].value
+        targets_ = []
+        while isinstance(v, App) and v.fn == "reshape":
+            targets_.append(v.args[1])
+            v = v.args[0]
+        want_final = Tup([Star(App("shape", (S_,))), Star(App("shape", (T_,))), Const(2), Const(2)])
+        buf = libmodel.shape_of(v)
+        flatS = App("reshape", (S_, Const(-1)))
+        flatT = App("reshape", (T_, Const(-1)))
+        want_buf = Tup([App("size", (App("getitem", (flatS, Tup([App("slice", (Const(None), Const(None), Const(None))), Const(None)]))),)),
+                        App("size", (App("getitem", (flatT, Tup([Const(None), App("slice", (Const(None), Const(None), Const(None)))]))),)), Const(2), Const(2)])
+        ok = bool(targets_) and targets_[0] == want_final and buf is not None and len(buf.items) == 4 and buf.items[2:] == (Const(2), Const(2))
+        mids_ok = all(isinstance(t_, Tup) and t_.items[-2:] == (Const(2), Const(2)) for t_ in targets_)
+        if ok and mids_ok:
+            chk.hold("R10.2", "pointwise_cm:shape", "result reshaped to scores.shape + threshold.shape + (2, 2) from a (S, T, 2, 2) buffer (row-major, scores first)")
+        elif targets_ and isinstance(targets_[0], Tup):
+            chk.violation("R10.2", "score_analysis.scores.pointwise_cm", "shape", "final reshape target %s from buffer %s" % (show(targets_[0], 160), show(buf, 120) if buf is not None else "?"),
+                          show(want_final, 160), ctx.where("score_analysis.scores.pointwise_cm"))
+        else:
+            chk.unknown("R10.2", "pointwise_cm: shape restoration not recognised: %s" % show(rets[0].value, 160))
     for metric in METRICS:
         outs = explore_rate(ctx, chk, metric, "pos", "pos")
         rets = returns(outs)
@@ -272,8 +306,10 @@ def shapes_and_aliases(ctx, chk):
             chk.hold("R10.3", "%s->%s" % (alias, tgt), "alias returns %s(threshold)" % tgt)
         else:
             chk.violation("R10.3", SCORES + "." + alias, "alias-of:" + tgt, [show(o.value, 80) for o in rets], "self.%s(threshold)" % tgt, ctx.where(SCORES + "." + alias))
-    from . import c02s
+    from . import c02s, c17
     c02s.alias_forwarding(ctx, chk)
+    # threshold_at_metric is elementwise in its targets only if invert_pl_function keeps results attached to their target index
+    c17.run(ctx, chk, "quick")
     cma = ctx.db.cls(SCORES).find_assign("confusion_matrix")
     if cma is not None and ast.unparse(cma[1]) == "cm":
         chk.hold("R10.3", "confusion_matrix", "class-level alias of cm", nontrivial=False)
